@@ -78,10 +78,6 @@ func boundaryClusterAt(r *RNG, i int) []string {
 			c = append(c, "18446744073709551615", "99999999999999999999")
 		}
 	}
-	// spellings with leading zeros of some members
-	if r.Chance(35) && len(c) > 0 {
-		c = append(c, strings.Repeat("0", 1+r.Intn(2))+c[r.Intn(len(c))])
-	}
 	return c
 }
 
@@ -128,6 +124,16 @@ func boundaryVariants(r *RNG, s string, k int, cluster int) []string {
 		}
 		used[i] = true
 		out = append(out, s[:run[0]]+c[i]+s[run[1]:])
+	}
+	// a second spelling (leading zeros) of one of the members just used: the same number, another
+	// text length — fast paths guarded by a digit count treat the two differently
+	if len(out) > 0 && cluster%nClusters < nClusters-2 && r.Chance(60) {
+		for _, i := range order {
+			if used[i] {
+				out = append(out, s[:run[0]]+strings.Repeat("0", 1+r.Intn(2))+c[i]+s[run[1]:])
+				break
+			}
+		}
 	}
 	return out
 }
